@@ -23,6 +23,16 @@ def main(argv):
         build.build_all()
         if argv[0] == "replay":
             doc = json.load(open(argv[1]))
+            if "property" not in doc:
+                # a pinned replay of a known finding (known/F-*.json): the bare replay document; its property is recorded
+                # in known_findings.json
+                base = os.path.basename(argv[1])
+                kf = [k for k in json.load(open(os.path.join(build.VERIF, "known_findings.json")))
+                      if os.path.basename(k.get("replay") or "") == base]
+                if not kf:
+                    sys.stderr.write("HARNESS ERROR: %s is neither a violation file nor a pinned replay listed in known_findings.json\n" % argv[1])
+                    return 2
+                doc = {"property": kf[0]["property"], "class": doc.get("class"), "replay": doc}
             mod = __import__(MODULES[doc["property"]])
             rp = dict(doc["replay"])
             rp["class"] = doc["class"]
